@@ -2,7 +2,7 @@ PROP = {
     "level": "exploration",
     "stages": [("main", "c17", False, ())],
     # part (b) enumerates its stated bound completely in both tiers (quick: chunks <= 3, workers <= 2;
-    # thorough: chunks <= 4, workers <= 3); the harness fails its minimum-observation requirement otherwise
+    # thorough: chunks <= 5, workers <= 3); the harness fails its minimum-observation requirement otherwise
     "exhaustive": True,
     "assumptions": [
         "part (b) is exhaustive only at the granularity of the state's mutex (nextChunkToSend, markChunkDone, trySendEnd and the three stores of applyResumeInfo / the verification goroutine are each one atomic step) and only for the stated bound; the stores are replayed by a shim in the order the real code uses (verifyPending, then verdict and plan in either order)",
@@ -14,6 +14,6 @@ PROP = {
 }
 META = {
     "technique": "runtime monitor: exhaustive re-execution of all method-granularity interleavings of the real sendFileState (bounded), hook-order trace monitor on the real sender against a scripted receiver over loopback QUIC, random operation orders on the real HybridScheduler",
-    "text": "Exploration with an exhaustively enumerated bounded core: (b) every interleaving of up to 3 workers' take/finish/poll calls on the real sendFileState with the arrival of the resume report (verifyPending, plan) and of the verification verdict, for every chunk count <= 4 (quick: <= 3 chunks, 2 workers), bitmap, verification point and outcome, each schedule re-executed from a fresh state and judged by an exactly-once oracle; (a) hundreds to thousands of real SendManifestMultiStream runs over loopback QUIC against a scripted receiver that chooses report time (at once / inside / after the 300 ms grace / never), bitmap, verification chunk and right or wrong hash, with the verdict held and chunk frames delayed through hooks, judged from the total order of the hook events; (c) random Add/Next/Remove orders on the real HybridScheduler. Exhaustive only for (b)'s bound at mutex granularity; everything else decides the executions produced.",
+    "text": "Exploration with an exhaustively enumerated bounded core: (b) every interleaving of up to 3 workers' take/finish/poll calls on the real sendFileState with the arrival of the resume report (verifyPending, plan) and of the verification verdict, for every chunk count <= 5 (quick: <= 3 chunks, 2 workers), bitmap, verification point and outcome, explored as a graph of (real state, worker states, monitor state) nodes whose every schedule prefix is re-executed on a fresh real state, and judged by an exactly-once oracle; (a) hundreds to thousands of real SendManifestMultiStream runs over loopback QUIC against a scripted receiver that chooses report time (at once / inside / after the 300 ms grace / never), bitmap, verification chunk and right or wrong hash, with the verdict held and chunk frames delayed through hooks, judged from the total order of the hook events; (c) random Add/Next/Remove orders on the real HybridScheduler. Exhaustive only for (b)'s bound at mutex granularity; everything else decides the executions produced.",
     "note": "Trusted: the verifhook sequence numbers (taken / plan.applied are emitted under the state's mutex), the export shims (method wrappers and the three stores in production order), the scripted receiver. Not covered: instruction-level interleavings inside the mutex-protected methods (they are atomic by construction), ResumeVerifyTail > 0, unknown-hash reports.",
 }
